@@ -224,6 +224,12 @@ def raw_primitive_calls(ctx, cfg, rule="verify-then-decrypt-only"):
                 nm2 = "::".join(nm.split("::")[-2:])
                 n += 1
                 ok = nm2 in ALLOWED_CIPHER_EXTERNAL
+                # direction: a decrypt wrapper has no business sealing, an encrypt wrapper none opening
+                wrongdir = (i["name"] == "decrypt" and nm2 in ("AeadInPlace::encrypt_in_place_detached", "LessSafeKey::seal_in_place_separate_tag")) or \
+                           (i["name"] == "encrypt" and nm2 in ("AeadInPlace::decrypt_in_place_detached", "LessSafeKey::open_in_place"))
+                if wrongdir:
+                    ctx.ob(rule, "%s:%s" % (short(fn.path), nm2), False, "the %s wrapper calls %s, the AEAD entry point of the opposite direction (applying the keystream without a verified tag)" % (i["name"], nm2), where(fn, t), cfg)
+                    continue
                 ctx.ob(rule, "%s:%s" % (short(fn.path), nm2), ok,
                        "backend entry point %s is an AEAD (verify-then-decrypt) operation" % nm2 if ok else "Cipher impl calls %s, which is not one of the audited AEAD entry points (raw keystream/block primitives would release unauthenticated plaintext)" % d,
                        where(fn, t), cfg)
